@@ -140,6 +140,11 @@ def run(tier, seed):
                 for pre in ([], ['S-'], ['E0']):
                     seqs.append(pre + ['P%d' % i, 'G', 'P%d' % j, 'G', 'G', 'W'])
                     seqs.append(pre + ['P%d' % i, 'W', 'S+', 'P%d' % j, 'W', 'G'])
+        for q1 in ('G', 'W'):       # the safety setting toggled around an unsafe workbook without touching the path
+            for q2 in ('G', 'W'):
+                seqs.append(['S-', 'P2', q1, 'S+', q2])
+                seqs.append(['P2', q1, 'S-', q2, 'S+', q1])
+                seqs.append(['S-', 'P2', 'E0', q1, 'S+', q2, 'S-', q1])
         nrand = 300 if tier == 'quick' else 4000
         for _ in range(nrand):
             n = rng.randint(4, 8)
